@@ -13,8 +13,10 @@ def scenarios(rng, tier):
         own = base_cfg.own(); mtu = base_cfg.d['mtu']
         icon = bytes(rng.randrange(256) for _ in range(rng.choice([10, 600, 3000])))
         s.start('reset_%d' % k); s.lines.append(base_cfg.line()); s.lines.append(c1.line())
-        s.lines.append(gline(host=b'host', icon=icon, fname=b'friendly', hwid=b'\x01\x02\x03\x04'))
+        noicon = (k % 5 == 3)          # no icon (the getter fails) or an empty one before the Reset, asked for; a real one afterwards
+        s.lines.append(gline(host=b'host', icon=(None if k % 10 == 3 else b'') if noicon else icon, fname=b'friendly', hwid=b'\x01\x02\x03\x04'))
         st = [mac(i) for i in range(1, 5)]
+        if noicon: s.frame(0, discover(st[0], gen=3)); s.frame(0, qlt(st[0], own, 14, 0, seq=2))
         if rng.random() < 0.35:      # observations recorded before any mapper is known
             for t in range(rng.choice([1, 2, 4])): s.frame(0, probe(mac(400 + t), own, mac(400 + t), own, train=t % 2 == 0))
         if rng.random() < 0.85:
@@ -32,7 +34,11 @@ def scenarios(rng, tier):
         s.frame(0, reset(rng.choice(st), tos=0))
         c = Scn(); session(rng, c, 0, base_cfg, st, n_ops=rng.choice([5, 20, 40]), noise=0.1, icon_len=len(icon))
         # the icon may differ now: the cache must not leak
-        if rng.random() < 0.5: s.lines.append(gline(host=b'host', icon=bytes(reversed(icon)), fname=b'friendly', hwid=b'\x01\x02\x03\x04'))
+        if noicon:
+            s.lines.append(gline(host=b'host', icon=icon, fname=b'friendly', hwid=b'\x01\x02\x03\x04'))
+            for f_ in (discover(st[1], gen=4), qlt(st[1], own, 14, 0, seq=3), qlt(st[1], own, 14, 100, seq=4)):
+                s.frame(0, f_); s.frame(1, f_)
+        elif rng.random() < 0.5: s.lines.append(gline(host=b'host', icon=bytes(reversed(icon)), fname=b'friendly', hwid=b'\x01\x02\x03\x04'))
         for l in c.lines:
             t = l.split()
             s.lines.append(l)
